@@ -1,5 +1,10 @@
 use crate::{ansi::parse_next_number, EngineResult, Palette, ParserError, Position, Rectangle, Size};
 
+/// Largest picture width / height (and repeat count) the decoder honours.
+const MAX_SIXEL_DIMENSION: i32 = 4096;
+/// Highest colour register number.
+const MAX_SIXEL_COLOR_REGISTER: i32 = 1023;
+
 #[derive(Clone, Debug, Copy)]
 pub enum SixelState {
     Read,
@@ -103,7 +108,7 @@ impl SixelParser {
                     self.parsed_numbers.push(0);
                 } else {
                     if let Some(color) = self.parsed_numbers.first() {
-                        self.current_sixel_color = *color as u32;
+                        self.current_sixel_color = (*color).clamp(0, MAX_SIXEL_COLOR_REGISTER) as u32;
                     }
                     if self.parsed_numbers.len() > 1 {
                         if self.parsed_numbers.len() != 5 {
@@ -154,14 +159,14 @@ impl SixelParser {
                     self.vertical_scale = self.parsed_numbers[0];
                     self.horizontal_scale = self.parsed_numbers[1];
                     if self.parsed_numbers.len() == 3 {
-                        let height = self.parsed_numbers[2];
+                        let height = self.parsed_numbers[2].clamp(0, MAX_SIXEL_DIMENSION);
                         self.picture_data.resize(height as usize, Vec::new());
                         self.height_set = true;
                     }
 
                     if self.parsed_numbers.len() == 4 {
-                        let height = self.parsed_numbers[3];
-                        let width = self.parsed_numbers[2];
+                        let height = self.parsed_numbers[3].clamp(0, MAX_SIXEL_DIMENSION);
+                        let width = self.parsed_numbers[2].clamp(0, MAX_SIXEL_DIMENSION);
                         self.picture_data.resize(height as usize, vec![0; 4 * width as usize]);
                         self.height_set = true;
                     }
@@ -178,7 +183,7 @@ impl SixelParser {
                     self.parsed_numbers.push(parse_next_number(d, ch as u8));
                 } else {
                     if let Some(i) = self.parsed_numbers.first() {
-                        for _ in 0..*i {
+                        for _ in 0..(*i).min(MAX_SIXEL_DIMENSION) {
                             self.parse_sixel_data(ch)?;
                         }
                     } else {
